@@ -67,6 +67,12 @@ type Sys struct {
 	deadSeen int
 	abyss    *recAbyss
 	crashed  bool
+	// hazard: the guard's graceful fan-out met a terminated child that it still lists; Go's map
+	// iteration order then decides the order of two messages in the subscription actor's queue,
+	// which the deterministic model cannot know. The generator discards such cases.
+	events  []string // global, totally ordered record (same events as MV.Model.ActorSys.Event)
+	hazard  bool
+	current int // actor whose turn is running (-1: none)
 }
 
 type armedTimer struct {
@@ -89,6 +95,11 @@ func (a *recAbyss) IsTerminated() bool              { return a.inner.IsTerminate
 func (a *recAbyss) Terminate(source *prc.ProcessId) { a.inner.Terminate(source) }
 func (a *recAbyss) DeliveryUserMessage(receiver, sender, forward *prc.ProcessId, message prc.Message) {
 	a.s.mu.Lock()
+	if t, ok := message.(*prc.MessageWrapper); ok && sender == nil && receiver != nil {
+		if ot, isT := t.Message.(*vivid.OnTerminate); isT && ot.Gracefully && a.s.current == 0 {
+			a.s.hazard = true
+		}
+	}
 	a.s.dead = append(a.s.dead, fmt.Sprintf("%s>%s:%s", a.s.name(sender), a.s.name(receiver), a.s.fmtMsg(message)))
 	a.s.mu.Unlock()
 	a.inner.DeliveryUserMessage(receiver, sender, forward, message)
@@ -142,7 +153,7 @@ func (s *Sys) name(ref vivid.ActorRef) string {
 	}
 	// a reference to a never-registered address (see target): named by the actor id it stands for
 	if i := strings.LastIndex(ref.GetLogicalAddress(), "/ghost-"); i >= 0 {
-		return ref.GetLogicalAddress()[i+7:]
+		return "g" + ref.GetLogicalAddress()[i+7:]
 	}
 	return "?" + ref.GetLogicalAddress()
 }
@@ -198,6 +209,11 @@ func (a *scriptActor) OnReceive(ctx vivid.ActorContext) {
 		obs = fmt.Sprintf("other:%T", m)
 	}
 	a.rec.log = append(a.rec.log, fmt.Sprintf("%d/%s/%s", a.inc, obs, a.s.name(ctx.Sender())))
+	if a.rec.aid >= 0 {
+		a.s.events = append(a.s.events, fmt.Sprintf("h:%d:%d/%s/%s", a.rec.aid, a.inc, obs, a.s.name(ctx.Sender())))
+	} else {
+		a.s.events = append(a.s.events, fmt.Sprintf("h:?:%d/%s/%s", a.inc, obs, a.s.name(ctx.Sender())))
+	}
 	b := a.s.behs[a.rec.beh]
 	if b == nil {
 		return
@@ -270,10 +286,17 @@ func (s *Sys) runAction(ctx vivid.ActorContext, rec *actorRec, act []string) {
 	case "kill":
 		ctx.Terminate(s.target(ctx, act[1]), act[2] == "g")
 	case "watch":
-		ctx.Watch(s.target(ctx, act[1]))
+		if t := s.target(ctx, act[1]); t != nil && !t.Equal(ctx.Ref()) { // scripted actors never watch themselves
+			s.events = append(s.events, fmt.Sprintf("watch:%d:%s", rec.aid, s.name(t)))
+			ctx.Watch(t)
+		}
 	case "unwatch":
-		ctx.UnWatch(s.target(ctx, act[1]))
+		if t := s.target(ctx, act[1]); t != nil && !t.Equal(ctx.Ref()) {
+			s.events = append(s.events, fmt.Sprintf("unwatch:%d:%s", rec.aid, s.name(t)))
+			ctx.UnWatch(t)
+		}
 	case "panic":
+		s.events = append(s.events, fmt.Sprintf("failed:%d", rec.aid))
 		panic("scripted failure")
 	}
 }
@@ -292,6 +315,11 @@ func (s *Sys) strategyOf(d *strategyDef) supervision.Strategy {
 			}
 			dir = d.table[i]
 		}
+		sup := "?"
+		if r, ok := record.Supervisor.(interface{ Ref() vivid.ActorRef }); ok {
+			sup = s.name(r.Ref())
+		}
+		s.events = append(s.events, fmt.Sprintf("decided:%s:%s:%s:%d", sup, s.name(record.Victim), dir, count))
 		switch dir {
 		case "stop":
 			return supervision.DirectiveStop
@@ -333,6 +361,7 @@ func (s *Sys) spawn(ctx vivid.ActorContext, beh int) *actorRec {
 	})
 	rec.ref = ref
 	rec.aid = len(s.actors)
+	s.events = append(s.events, fmt.Sprintf("spawned:%s:%d", s.name(ctx.Ref()), rec.aid))
 	s.actors = append(s.actors, rec)
 	s.byURL[ref.URL().String()] = rec
 	return rec
@@ -341,13 +370,14 @@ func (s *Sys) spawn(ctx vivid.ActorContext, beh int) *actorRec {
 // ---------------------------------------------------------------- system
 
 func New(behs map[int]*behDef) *Sys {
-	s := &Sys{behs: behs, byURL: map[string]*actorRec{}, recvOf: map[int]unsafe.Pointer{}}
+	s := &Sys{behs: behs, byURL: map[string]*actorRec{}, recvOf: map[int]unsafe.Pointer{}, current: -1}
 	s.sc = sched.New()
 	s.sc.Filter = func(site string) bool { return site == "mb.spop" }
 	vivid.VerifSetDefaultDispatcher(&disp{s})
 	s.abyss = &recAbyss{inner: vivid.VerifNewAbyss(), s: s}
 	s.sys = vivid.NewActorSystem(vivid.FunctionalActorSystemConfigurator(func(c *vivid.ActorSystemConfiguration) {
-		c.WithLoggerProvider(log.FunctionalLoggerProvider(func() *log.Logger { return log.NewSilentLogger() }))
+		spy := log.New(spyHandler{s})
+		c.WithLoggerProvider(log.FunctionalLoggerProvider(func() *log.Logger { return spy }))
 		c.WithAbyss(s.abyss)
 	}))
 	g := &actorRec{aid: 0, beh: 0, ref: vivid.VerifGuardRef(s.sys)}
@@ -427,7 +457,7 @@ func (s *Sys) digest(rec *actorRec, before int) string {
 
 func (s *Sys) RunActor(aid int) string {
 	if s.crashed {
-		return "crashed"
+		return "skipped"
 	}
 	if aid < 0 || aid >= len(s.actors) {
 		return "skip"
@@ -439,12 +469,20 @@ func (s *Sys) RunActor(aid int) string {
 		return "skip"
 	}
 	before := len(s.actors)
+	s.current = aid
 	site, _, _, ok := s.sc.Step(tid)
+	s.current = -1
 	if !ok {
 		return "skip"
 	}
 	if site == "hang" {
 		return "hang"
+	}
+	if s.sc.Crashed {
+		// a panic escaped the runner (e.g. Escalate at the root, inside the recover handler): the
+		// real process would be dead now
+		s.crashed = true
+		return "fatal"
 	}
 	return s.digest(rec, before)
 }
@@ -452,7 +490,7 @@ func (s *Sys) RunActor(aid int) string {
 // Fire waits until the oldest armed restart timer has delivered its message.
 func (s *Sys) Fire() string {
 	if s.crashed {
-		return "crashed"
+		return "skipped"
 	}
 	if len(s.armed) == 0 {
 		return "none"
